@@ -326,8 +326,11 @@ def main():
                 "propagations for the monitors; non-trivial: >= 2 baths and depth >= 2")
     chk.assumptions = ["bare hierarchies replicate the index part of KTHierarchy.__init__ (generate_indices, _convert_2_matrix, _make_nmp1, _make_Gamma)",
                        "convergence with depth to the analytic dephasing solution and the closed-system limit are validated numerically, not proved",
-                       "the binomial count C(N+k-1,k) of a level is not mechanised (completeness + duplicate freedom are)"]
+                       "static tie: generate_indices/_make_nmp1/_make_Gamma/_convert_2_matrix are matched statement by statement against "
+                       "templates (harness/translate2.py); the translator is trusted to read the ast faithfully"]
     chk.prove()
+    import translate
+    translate.static_tie(cm, chk, PID, cm.REPO)      # second, static tie: model regenerated from the current source
     if args.replay:
         rep = json.load(open(args.replay))
         cases = [rep["input"]] if isinstance(rep.get("input"), dict) and rep["input"].get("kind") in ("full", "bare", "rhs") else []
